@@ -16,6 +16,17 @@ CHECKS = {
         note=TB + " Goroutine schedules outside the gated parser are sampled; the race detector is trusted as an observer.",
         technique="TLA+ interleaving model + TLC, deterministic schedule replay through a build-tag hook, trace validation of extraction histories",
     ),
+    "C04": dict(
+        text="XrefHistory.tla: revisions (xref kind, per-object keep/free/plain/in-object-stream/stream/stream-with-indirect-length) "
+             "appended to a history, Open (discover + merge as the reader does), Lookup through merged table and cache, ClearCache; "
+             "TLC proves LookupCorrect/CacheSound/OrderIndependent for the newest-wins merge over all histories within the bounds and "
+             "refutes the oldest-wins variant. Every history x 4 physical option sets is rendered by the independent writer as an "
+             "incremental PDF and probed through reader.Open/GetObject with all lookup sequences up to a bound; recorded "
+             "Open/Lookup/Clear sequences are validated by XrefHistoryTrace.tla, whose Lookup action must yield the logged result.",
+        design_ref="4.4",
+        note=TB + " pdfw (harness/internal/pdfw) is an independent writer with a structural self-audit; zlib trusted; generation numbers other than 0/65535 and hybrid files not generated.",
+        technique="TLA+ history model + TLC exhaustive enumeration, rendered-file replay, trace validation of lookup sequences",
+    ),
     "C06": dict(
         text="PdfSyntax.tla is the PDF object syntax as a writer: a pushdown generator of well-nested token sequences and "
              "Spell(tokens, policy) giving the bytes for every legal spelling policy (white-space kinds incl. comments, EOL kinds, "
